@@ -1,10 +1,14 @@
 /-
   Line handler for C19 (error formatters).
 
-    c19 <n> issue*          → "<model>\t<spec>"
+    c19 cfg=<4 bits> <n> issue*   → "<model>\t<spec>"      (an error with n issues)
+    c19 cfg=<4 bits> nil          → "<model>\t<spec>"      (a nil *ZodError)
+    cfg    := which pending fixes the working tree carries (probed by the harness): treeNeg treeOther
+              dotOther nilSafe, `1` = fixed (Model/IssuesGo.lean `Cfg`); the spec does not read it
     issue  := I <code> <npath> seg* <msg> <nbranches> branch* <nissues> issue*
     branch := <n> issue*
-    seg    := k<hex of the key's UTF-8 bytes> | i<decimal>
+    seg    := k<hex of the string's UTF-8 bytes> | i<decimal> (int ≥ 0) | j<decimal> (the int −decimal)
+              | o<hex of fmt.Sprintf("%v", el)> (an element of any other dynamic type)
     code   := invalid_type | … (the 17 constants) | ?<hex>   (any other code string)
     msg    := m<hex>
 
@@ -15,9 +19,10 @@
     tree      T[errors]{key:tree;…}(tree;…)
     fmt       M[errors]{key:fmt;…}
     pretty    P<hex>
+  and a report whose call panicked is `panic`.
 -/
-import Gozod.Model.Issues
-import Gozod.Model.IssuesSpec
+import Gozod.Model.IssuesGo
+import Gozod.Model.IssuesGoSpec
 namespace Gozod.Drv.C19
 open Gozod.Issues
 
@@ -70,12 +75,17 @@ def parseCode (t : String) : Option Code :=
   | "nil_pointer" => some .nilPointer
   | t => if t.startsWith "?" then (unhex (t.drop 1).toString).map Code.other else none
 
-def parseSeg (t : String) : Option Seg :=
-  if t.startsWith "k" then (unhex (t.drop 1).toString).map Seg.key
-  else if t.startsWith "i" then ((t.drop 1).toString.toNat?).map Seg.idx
+def parseSeg (t : String) : Option El :=
+  if t.startsWith "k" then (unhex (t.drop 1).toString).map El.str
+  else if t.startsWith "i" then ((t.drop 1).toString.toNat?).map (fun n => El.int (.ofNat n))
+  else if t.startsWith "j" then
+    match (t.drop 1).toString.toNat? with
+    | some (n + 1) => some (El.int (.negSucc n))
+    | _ => none
+  else if t.startsWith "o" then (unhex (t.drop 1).toString).map El.other
   else none
 
-def parseSegs : Nat → List String → Option (List Seg × List String)
+def parseSegs : Nat → List String → Option (List El × List String)
   | 0, ts => some ([], ts)
   | n + 1, t :: ts => do
     let s ← parseSeg t
@@ -84,7 +94,7 @@ def parseSegs : Nat → List String → Option (List Seg × List String)
   | _ + 1, [] => none
 
 mutual
-partial def parseIssue : List String → Option (Issue × List String)
+partial def parseIssue : List String → Option (IssueGo × List String)
   | "I" :: c :: np :: ts => do
     let code ← parseCode c
     let n ← np.toNat?
@@ -99,17 +109,17 @@ partial def parseIssue : List String → Option (Issue × List String)
       | ni :: ts => do
         let ni ← ni.toNat?
         let (subs, ts) ← parseIssues ni ts
-        pure (Issue.mk code path msg brs subs, ts)
+        pure (IssueGo.mk code path msg brs subs, ts)
       | [] => none
     | _ => none
   | _ => none
-partial def parseIssues : Nat → List String → Option (List Issue × List String)
+partial def parseIssues : Nat → List String → Option (List IssueGo × List String)
   | 0, ts => some ([], ts)
   | n + 1, ts => do
     let (i, ts) ← parseIssue ts
     let (r, ts) ← parseIssues n ts
     pure (i :: r, ts)
-partial def parseBranches : Nat → List String → Option (List (List Issue) × List String)
+partial def parseBranches : Nat → List String → Option (List (List IssueGo) × List String)
   | 0, ts => some ([], ts)
   | n + 1, ts =>
     match ts with
@@ -147,19 +157,39 @@ partial def rFmt : Fmt → String
     "M" ++ rList e ++ "{" ++ ";".intercalate (ks.map (fun (k, v) => k ++ ":" ++ v)) ++ "}"
 end
 
-def report (fl : Flat) (tr : Tree) (fm : Fmt) (pr : String) : String :=
-  s!"flat={rFlat fl} tree={rTree tr} fmt={rFmt fm} pretty=P{hex pr}"
+def orPanic {α : Type} (f : α → String) : Option α → String
+  | none => "panic"
+  | some a => f a
+
+def report (fl : Option Flat) (tr : Option Tree) (fm : Option Fmt) (pr : Option String) : String :=
+  s!"flat={orPanic rFlat fl} tree={orPanic rTree tr} fmt={orPanic rFmt fm} pretty={orPanic (fun p => "P" ++ hex p) pr}"
+
+def parseCfg (t : String) : Option Cfg :=
+  match t.toList with
+  | ['c', 'f', 'g', '=', a, b, c, d] =>
+    if [a, b, c, d].all (fun x => x == '0' || x == '1') then some ⟨a == '1', b == '1', c == '1', d == '1'⟩ else none
+  | _ => none
+
+def answer (c : Cfg) (e : Err) : String :=
+  let m := reportsCfg c e
+  let s := Spec.specReports e
+  report m.flat m.tree m.fmt m.pretty ++ "\t" ++ report (some s.1) (some s.2.1) (some s.2.2.1) (some s.2.2.2)
 
 def handle : List String → String
-  | n :: ts =>
-    match n.toNat? with
+  | c :: ts =>
+    match parseCfg c with
     | none => "bad-op"
-    | some n =>
-      match parseIssues n ts with
-      | some (is, []) =>
-        report (flatten is) (treeify is) (formatError is) (prettify is) ++ "\t" ++
-        report (Spec.specFlat is) (Spec.specTree is) (Spec.specFmt is) (Spec.specPretty is)
-      | _ => "bad-op"
+    | some c =>
+      match ts with
+      | ["nil"] => answer c none
+      | n :: ts =>
+        match n.toNat? with
+        | none => "bad-op"
+        | some n =>
+          match parseIssues n ts with
+          | some (is, []) => answer c (some is)
+          | _ => "bad-op"
+      | [] => "bad-op"
   | _ => "bad-op"
 
 end Gozod.Drv.C19
